@@ -305,7 +305,9 @@ def run(ctx):
         rec = [("nested", ALGOS), ("multi", ("xxh32", "md5")),
                ("cont", ("sha256", "sha256")), ("npz", ("xxh128",)),
                ("tfrec", ("sha3_512", "xxh64", "sha1")),
-               ("unicode", ("sha256", "xxh32"))]
+               ("unicode", ("sha256", "xxh32")),
+               ("subtwice", ("sha256", "md5")), ("deep3", ("sha1",)),
+               ("multi4", ("xxh64", "md5")), ("npznest", ("sha3_256",))]
         dg = 0
         for r in ex.map(recorded_case, rec):
             if r["harness"]:
